@@ -399,6 +399,9 @@ def _discharges(ctx, body, b, w):
     if not t or t["k"] != "call":
         return False
     seg = mir.last_seg(mir.callee(t) or "")
+    if w == "check_type" and seg == w:
+        # a check against a fixed unsigned number type is the check of an index / shift amount, not of the construct's value
+        return not _discharges(ctx, body, b, "@unsigned")
     if w != "@unsigned":
         return seg == w
     if seg == "check_or_constrain_unsigned":
